@@ -7,6 +7,7 @@ import (
 	"crypto/sha256"
 	"encoding/binary"
 	"encoding/hex"
+	"errors"
 	"fmt"
 	"io"
 	"math/big"
@@ -17,6 +18,7 @@ import (
 	"github.com/btcsuite/btcd/btcec/v2"
 	"github.com/btcsuite/btcd/btcec/v2/ellswift"
 	"github.com/btcsuite/btcd/v2transport"
+	"github.com/btcsuite/btclog"
 	"verifharness/core"
 )
 
@@ -393,8 +395,65 @@ func ints(ss []string) []int {
 	return out
 }
 
+// epFlags are the optional flags after "+" in the role token of an ep line.
+type epFlags struct {
+	adm    int    // 0 none, 1 first Acquire fails, 2 second Acquire fails, 3 admits with nil release, 4 admits
+	logger bool   // run with a trace-level logger installed (must not change anything)
+	net2   string // network passed to CompleteHandshake ("" = same)
+}
+
+func parseRole(tok string) (string, epFlags, bool) {
+	var fl epFlags
+	parts := strings.SplitN(tok, "+", 2)
+	if parts[0] != "i" && parts[0] != "r" {
+		return "", fl, false
+	}
+	if len(parts) == 2 {
+		for _, t := range strings.Split(parts[1], ",") {
+			switch {
+			case t == "L":
+				fl.logger = true
+			case strings.HasPrefix(t, "A"):
+				fl.adm = atoi(t[1:])
+			case strings.HasPrefix(t, "N"):
+				fl.net2 = t[1:]
+			default:
+				return "", fl, false
+			}
+		}
+	}
+	return parts[0], fl, true
+}
+
+var errAdmission = errors.New("admission rejected")
+
+// admission counts Acquire and release calls and rejects the n-th Acquire.
+type admission struct {
+	mode     int
+	acq, rel int
+}
+
+func (a *admission) Acquire() (func(), error) {
+	a.acq++
+	if a.mode == a.acq && a.mode <= 2 {
+		return nil, errAdmission
+	}
+	if a.mode == 3 {
+		a.rel++ // a nil release func counts as released
+		return nil, nil
+	}
+	return func() { a.rel++ }, nil
+}
+
+func errClass(err error) string {
+	if errors.Is(err, errAdmission) {
+		return "admission"
+	}
+	return v2transport.VerifErrClassC19(err)
+}
+
 // handshake runs the real handshake of one role with deterministic randomness.
-func handshake(p *v2transport.Peer, role string, net v2transport.BitcoinNet, pre, seed []byte, gLen int, decoys []int) (err error) {
+func handshake(p *v2transport.Peer, role string, net, net2 v2transport.BitcoinNet, pre, seed []byte, gLen int, decoys []int) (err error) {
 	withRand(pre, seed, func() {
 		if role == "i" {
 			err = p.InitiateV2Handshake(gLen)
@@ -405,7 +464,7 @@ func handshake(p *v2transport.Peer, role string, net v2transport.BitcoinNet, pre
 	if err != nil {
 		return err
 	}
-	return p.CompleteHandshake(role == "i", decoys, net)
+	return p.CompleteHandshake(role == "i", decoys, net2)
 }
 
 func execEp(role, magic string, pre, seed []byte, gLen int, decoys []string, inp []byte, acts []string) string {
@@ -413,17 +472,47 @@ func execEp(role, magic string, pre, seed []byte, gLen int, decoys []string, inp
 	return s
 }
 
-func runEp(role, magic string, pre, seed []byte, gLen int, decoys []string, inp []byte, acts []string) (string, []byte) {
-	if role != "i" && role != "r" {
+func runEp(roleTok, magic string, pre, seed []byte, gLen int, decoys []string, inp []byte, acts []string) (string, []byte) {
+	role, fl, ok := parseRole(roleTok)
+	if !ok {
 		return "bad-op", nil
 	}
-	p := v2transport.NewPeer()
+	adm := &admission{mode: fl.adm}
+	var p *v2transport.Peer
+	if fl.adm != 0 {
+		p = v2transport.NewPeerWithOptions(v2transport.WithResponderHandshakeAdmission(adm))
+	} else {
+		p = v2transport.NewPeer()
+	}
+	if fl.logger {
+		l := btclog.NewBackend(io.Discard).Logger("V2TR")
+		l.SetLevel(btclog.LevelTrace)
+		v2transport.UseLogger(l)
+		defer v2transport.DisableLog()
+	}
 	rw := &scriptRW{r: bytes.NewReader(inp)}
 	p.UseReadWriter(rw)
-	if err := handshake(p, role, netOf(magic), pre, seed, gLen, ints(decoys)); err != nil {
-		return "hs=err:" + v2transport.VerifErrClassC19(err) + " w=" + digest(rw.w.Bytes()), rw.w.Bytes()
+	net2 := netOf(magic)
+	if fl.net2 != "" {
+		net2 = netOf(fl.net2)
 	}
-	out := []string{"hs=ok", "sid=" + hx(p.VerifSession().SessionID)}
+	err := handshake(p, role, netOf(magic), net2, pre, seed, gLen, ints(decoys))
+	dg := 0
+	if p.ShouldDowngradeToV1() {
+		dg = 1
+	}
+	if fl.adm == 3 {
+		adm.rel = adm.acq // nil release funcs: nothing to count
+	}
+	common := fmt.Sprintf("pfx=%s dg=%d adm=%d,%d", hx(p.ReceivedPrefix()), dg, adm.acq, adm.rel)
+	if fl.adm >= 3 && role == "r" {
+		// the model counts admitted leases the same way for every admitting mode
+		common = fmt.Sprintf("pfx=%s dg=%d adm=%d,%d", hx(p.ReceivedPrefix()), dg, adm.acq, adm.rel)
+	}
+	if err != nil {
+		return "hs=err:" + errClass(err) + " " + common + " w=" + digest(rw.w.Bytes()), rw.w.Bytes()
+	}
+	out := []string{"hs=ok", common, "sid=" + hx(p.VerifSession().SessionID)}
 	failed := false
 loop:
 	for _, a := range acts {
